@@ -53,6 +53,9 @@ def materialise(vals, dtype, layout):
     return a
 
 
+HELD = []       # (result object, snapshot) of the earlier calls of the current history
+
+
 def run_call(conv, fn, vals, dtype, layout, exp):
     """returns None or a description of the first wrong position"""
     arg = materialise(vals, dtype, layout)
@@ -61,6 +64,16 @@ def run_call(conv, fn, vals, dtype, layout, exp):
         out = f(arg)
     except Exception as ex:
         return f"raised {type(ex).__name__}: {ex}"[:200]
+    # call discipline: the argument is an input only; earlier results stay what they were
+    if isinstance(arg, np.ndarray) and not np.array_equal(arg, materialise(vals, dtype, layout)):
+        return "ArgumentsUnchanged: the conversion modified its argument"
+    for h, snap in HELD:
+        if not np.array_equal(h, snap):
+            return "EarlierResultsUnchanged: an array returned by an earlier call of this history was overwritten"
+    if isinstance(out, np.ndarray):
+        if isinstance(arg, np.ndarray) and np.shares_memory(out, arg):
+            return "ResultNotAliased: the result shares memory with the argument"
+        HELD.append((out, np.array(out, copy=True)))
     got = [int(v) for v in np.asarray(out).reshape(-1)]
     if layout != "scalar" and np.shape(out) != np.shape(arg):
         return f"shape {np.shape(out)} for an argument of shape {np.shape(arg)}"
@@ -82,6 +95,7 @@ def worker(job):
         if pi > 0:                                    # re-initialise the module-level state of the anchored modules
             misc = importlib.reload(misc)
             conversion = importlib.reload(conversion)
+        del HELD[:]
         rng = np.random.RandomState(job["seed"] * 1009 + path["id"])
         done = []
         for ci, call in enumerate(path["calls"]):
